@@ -38,13 +38,13 @@ def same_seg(a, b, tol):
         if tol == 0:
             if x != y:
                 return False
-        elif abs(x - y) > tol:
+        elif not (abs(x - y) <= tol):
             return False
     if isinstance(a, sp.Arc):
         if bool(a.large_arc) != bool(b.large_arc) or bool(a.sweep) != bool(b.sweep) or a.rotation != b.rotation:
             return False
         for u, v in ((a.radius.real, b.radius.real), (a.radius.imag, b.radius.imag)):
-            if abs(u - v) > 1e-12 * max(abs(u), abs(v)) + tol:
+            if not (abs(u - v) <= 1e-12 * max(abs(u), abs(v)) + tol):
                 return False
     return True
 
@@ -146,7 +146,7 @@ def d_trace(p, abstract, d):
 
         def I(v):
             nonlocal bad
-            if v.denominator != 1 or abs(v) > 2 ** 30:
+            if v.denominator != 1 or not (abs(v) <= 2 ** 30):
                 bad = True
                 return 0
             return int(v)
@@ -155,7 +155,7 @@ def d_trace(p, abstract, d):
             rad = abstract[i][2] if i < n and abstract[i][0] == 'A' else [-1, -1]
             if seg is not None and isinstance(seg, sp.Arc):
                 for u_, v_ in ((float(a[0][0]), seg.radius.real), (float(a[0][1]), seg.radius.imag)):
-                    if abs(u_ - v_) > 1e-12 * abs(v_):
+                    if not (abs(u_ - v_) <= 1e-12 * abs(v_)):
                         rad = [-2, -2]
             ia = [rad, pm.rotkey(a[1]), a[2], a[3], [I(a[4][0]), I(a[4][1])]]
         elif u in ('H', 'V'):
